@@ -18,7 +18,7 @@ SIZE_NAMES = ('size', 'align', 'count', 'len', 'alignment', 'capacity', 'n', 'ad
 
 def run(ctx):
     fx = ctx.facts("default")
-    fixtures.run(ctx, ['linear', 'taint', 'commit', 'relink', 'viewcursor'])
+    fixtures.run(ctx, ['linear', 'taint', 'commit', 'relink', 'viewcursor', 'locksplit'])
     # (1) request sizes are untrusted integers for the allocator entry points
     cl = taint.new_closure(fx)
     n = 0
@@ -75,6 +75,7 @@ def run(ctx):
             rmw += sum(1 for b, op, fld, c in sync.atomic_sites(fnc) if op in ("fetch_add", "fetch_sub", "swap"))
             sync.commit_before_check(ctx, fnc)
             nrel += sync.push_relink(ctx, fnc, fx=fx)
+            sync.lock_split(ctx, fnc)
     ctx.instance("R-COMMIT.rmw_sites", rmw)
     ctx.floor("R-COMMIT.rmw_sites", 40)
     ctx.instance("R-ABA.relink.pushes", nrel)
